@@ -92,6 +92,28 @@ func litValue(tok, text string) string {
 	return "bad-token:" + text
 }
 
+// literalCall reads constant.MakeFromLiteral("text", token.TOK, 0).
+func literalCall(c *ast.CallExpr) (tok, text string, ok bool) {
+	if !isSel(c.Fun, "constant", "MakeFromLiteral") || len(c.Args) != 3 {
+		return "", "", false
+	}
+	bl, ok1 := c.Args[0].(*ast.BasicLit)
+	ts, ok2 := c.Args[1].(*ast.SelectorExpr)
+	z, ok3 := c.Args[2].(*ast.BasicLit)
+	if !ok1 || !ok2 || !ok3 || bl.Kind != token.STRING || z.Value != "0" {
+		return "", "", false
+	}
+	x, ok := ts.X.(*ast.Ident)
+	if !ok || x.Name != "token" {
+		return "", "", false
+	}
+	text, err := strconv.Unquote(bl.Value)
+	if err != nil {
+		return "", "", false
+	}
+	return ts.Sel.Name, text, true
+}
+
 // entryOf reads the value of one map element.
 func entryOf(key string, v ast.Expr) Entry {
 	e := Entry{Key: key, Form: "odd", Name: exprText(v)}
@@ -135,15 +157,20 @@ func entryOf(key string, v ast.Expr) Entry {
 			return e
 		}
 		// constant.MakeFromLiteral("text", token.TOK, 0)
-		if isSel(c.Fun, "constant", "MakeFromLiteral") && len(c.Args) == 3 {
-			bl, ok1 := c.Args[0].(*ast.BasicLit)
-			ts, ok2 := c.Args[1].(*ast.SelectorExpr)
-			z, ok3 := c.Args[2].(*ast.BasicLit)
-			if ok1 && ok2 && ok3 && bl.Kind == token.STRING && z.Value == "0" {
-				if x, ok := ts.X.(*ast.Ident); ok && x.Name == "token" {
-					text, err := strconv.Unquote(bl.Value)
-					if err == nil {
-						return Entry{Key: key, Form: "lit", Tok: ts.Sel.Name, Val: litValue(ts.Sel.Name, text), Raw: text}
+		if tok, text, ok := literalCall(c); ok {
+			return Entry{Key: key, Form: "lit", Tok: tok, Val: litValue(tok, text), Raw: text}
+		}
+		// constant.BinaryOp(RE, token.ADD, constant.MakeImag(IM)), RE and IM INT or FLOAT literals
+		if isSel(c.Fun, "constant", "BinaryOp") && len(c.Args) == 3 && isSel(c.Args[1], "token", "ADD") {
+			re, ok1 := c.Args[0].(*ast.CallExpr)
+			mi, ok2 := c.Args[2].(*ast.CallExpr)
+			if ok1 && ok2 && isSel(mi.Fun, "constant", "MakeImag") && len(mi.Args) == 1 {
+				if im, ok := mi.Args[0].(*ast.CallExpr); ok {
+					rt, rtext, okr := literalCall(re)
+					it, itext, oki := literalCall(im)
+					if okr && oki && (rt == "INT" || rt == "FLOAT") && (it == "INT" || it == "FLOAT") {
+						return Entry{Key: key, Form: "lit", Tok: "COMPLEX", Val: rt + ":" + litValue(rt, rtext) + ";" + it + ":" + litValue(it, itext),
+							Raw: rt + ":" + rtext + ";" + it + ":" + itext}
 					}
 				}
 			}
